@@ -83,6 +83,7 @@ uint64_t f_vf_soccc(uint64_t id) { return VF_SOCCC(id); }
  * the witness byte g_wit, which is copied faithfully.  g_wit is an arbitrary constant chosen by the harness, so a
  * postcondition proved about byte g_wit of a copy holds for every byte. */
 uint64_t g_wit;
+uint8_t *g_wit_dst;
 uint64_t g_win[VF_NWIN];
 #ifndef VF_WINDOWS
 #define VF_WINDOWS 0 /* units that need typed fields to survive a run-time-length copy ask for 1..VF_NWIN windows */
@@ -103,6 +104,9 @@ void *vf_memcpy(void *d, const void *s, uint64_t n)
         /* faithful at the witness byte g_wit and at VF_WINDOWS eight-byte windows g_win[], arbitrary elsewhere:
          * an over-approximation of the copy (also of an overlapping memmove: everything is read before written) */
         uint8_t w = g_wit < n ? ((const uint8_t *)s)[g_wit] : 0;
+        /* second witness: an arbitrary absolute destination address (independent of how a copy is split into calls) */
+        uint64_t rel = (uint64_t)((uintptr_t)g_wit_dst - (uintptr_t)d);
+        uint8_t w2 = rel < n ? ((const uint8_t *)s)[rel] : 0;
 #if VF_WINDOWS >= 1
         VF_WIN_LOAD(0);
 #endif
@@ -129,6 +133,7 @@ void *vf_memcpy(void *d, const void *s, uint64_t n)
         VF_WIN_STORE(3);
 #endif
         if (g_wit < n) ((uint8_t *)d)[g_wit] = w;
+        if (rel < n) ((uint8_t *)d)[rel] = w2;
     }
     return d;
 }
